@@ -462,6 +462,8 @@ impl OpBuilder {
                     3 => Invisible,
                     4 => FillAndClip,
                     5 => StrokeAndClip,
+                    6 => FillThenStrokeAndClip,
+                    7 => Clip,
                     _ => {
                         bail!("Invalid text render mode: {}", n);
                     }
@@ -981,7 +983,9 @@ pub enum TextMode {
     FillThenStroke,
     Invisible,
     FillAndClip,
-    StrokeAndClip
+    StrokeAndClip,
+    FillThenStrokeAndClip,
+    Clip
 }
 
 #[derive(Debug, Copy, Clone, PartialEq, DataSize)]
